@@ -71,6 +71,11 @@ def render(paths, nc, seed):
             if rng.random() < 0.2:      # near tie: second best only 0.5 below the maximum
                 other = rng.choice([k for k in range(nc) if k != paths[i][f]])
                 sc[i, other, f] = (top - 0.5) * scale
+            elif rng.random() < 0.15 and paths[i][f] < nc - 1:
+                # exact tie with a LATER class (often the blank, which is last): numpy and torch both document that arg-max
+                # returns the first maximal index, so the arg-max path is still the intended one
+                later = rng.choice(list(range(paths[i][f] + 1, nc)))
+                sc[i, later, f] = sc[i, paths[i][f], f]
     return sc
 
 
